@@ -183,6 +183,26 @@ impl Sys {
     }
 }
 
+/// (peer, addr, success, failure, last_seen) of the cache file exactly as it is on disk
+fn read_raw(path: &std::path::Path) -> Vec<(String, String, u32, u32, SystemTime)> {
+    std::fs::read_to_string(path)
+        .ok()
+        .and_then(|t| serde_json::from_str::<serde_json::Value>(&t).ok())
+        .map(|v| {
+            let mut out = vec![];
+            if let Some(peers) = v["peers"].as_object() {
+                for (p, list) in peers {
+                    for e in list.as_array().into_iter().flatten() {
+                        let secs = e["last_seen"]["secs_since_epoch"].as_u64().unwrap_or(0);
+                        out.push((p.clone(), e["addr"].as_str().unwrap_or("").to_string(), e["success_count"].as_u64().unwrap_or(0) as u32, e["failure_count"].as_u64().unwrap_or(0) as u32, SystemTime::UNIX_EPOCH + Duration::from_secs(secs)));
+                    }
+                }
+            }
+            out
+        })
+        .unwrap_or_default()
+}
+
 fn addr_set(es: &[(PeerId, Multiaddr, u32, u32, SystemTime)]) -> BTreeSet<String> {
     es.iter().map(|e| e.1.to_string()).collect()
 }
@@ -251,28 +271,33 @@ impl System for Sys {
                 let mem_before = entries(&self.st);
                 // the file exactly as it is on disk (not through load_cache_data, which already cleans up and breaks
                 // ties between equally old peers by HashMap order)
-                let file_before: Vec<(String, String, u32, u32, SystemTime)> = std::fs::read_to_string(&self.path)
-                    .ok()
-                    .and_then(|t| serde_json::from_str::<serde_json::Value>(&t).ok())
-                    .map(|v| {
-                        let mut out = vec![];
-                        if let Some(peers) = v["peers"].as_object() {
-                            for (p, list) in peers {
-                                for e in list.as_array().into_iter().flatten() {
-                                    let secs = e["last_seen"]["secs_since_epoch"].as_u64().unwrap_or(0);
-                                    out.push((p.clone(), e["addr"].as_str().unwrap_or("").to_string(), e["success_count"].as_u64().unwrap_or(0) as u32, e["failure_count"].as_u64().unwrap_or(0) as u32, SystemTime::UNIX_EPOCH + Duration::from_secs(secs)));
-                                }
-                            }
-                        }
-                        out
-                    })
-                    .unwrap_or_default();
+                let file_before = read_raw(&self.path);
                 let raw_file_before: BTreeSet<String> = file_before.iter().map(|e| e.1.clone()).collect();
                 let r = catch(|| self.st.sync_and_flush_to_disk(*cleanup));
                 match r {
                     Err(p) => fails.push(Fail::new("no-panic", "sync_and_flush_to_disk", p)),
                     Ok(Err(e)) => fails.push(Fail::new("flush-succeeds", "error", format!("{e:?}"))),
                     Ok(Ok(())) => {}
+                }
+                // the file as written by a flush with clean-up *is* the cache after merge + clean-up: judged raw
+                // (load_cache_data would trim it again with this store's limits and hide an over-full file)
+                if *cleanup {
+                    let raw = read_raw(&self.path);
+                    let mut per_peer: BTreeMap<&str, usize> = BTreeMap::new();
+                    for e in &raw {
+                        *per_peer.entry(e.0.as_str()).or_default() += 1;
+                        if e.3 > e.2 || expired(e.4, self.cfg.expiry) {
+                            fails.push(Fail::new("clean-after-cleanup", "file-after-flush", format!("the file written by a flush with clean-up holds {} (ok {}, fail {}, expired {})", e.1, e.2, e.3, expired(e.4, self.cfg.expiry))));
+                        }
+                    }
+                    if per_peer.len() > self.cfg.max_peers {
+                        fails.push(Fail::new("bounded", "file-peers", format!("the file written by a flush with clean-up holds {} peers, limit {}", per_peer.len(), self.cfg.max_peers)));
+                    }
+                    for (p, n) in per_peer {
+                        if n > self.cfg.max_addrs {
+                            fails.push(Fail::new("bounded", "file-addrs-per-peer", format!("the file written by a flush with clean-up holds {n} addresses for {p}, limit {}", self.cfg.max_addrs)));
+                        }
+                    }
                 }
                 // what a fresh process now loads
                 match catch(|| BootstrapCacheStore::load_cache_data(self.st.config())) {
